@@ -45,10 +45,12 @@ AnswerT(log, hmap, hroot, d, q) == AnswerWith(log, hmap, d, q, HSearchT(hmap, d,
 
 (***************************************************************************)
 (* Client-side verification of a wire answer.                               *)
-(* Intended: an accepted answer must claim existence with actual <= query,  *)
-(* and BOTH trees must bind it.                                             *)
-(* AsImplemented (balloon.DigestVerify at the pinned commit): the history    *)
-(* check is skipped when Exists is false or actual > query.                  *)
+(* Intended (and, since the fix commit 2cea738, implemented): an accepted     *)
+(* answer must claim existence with actual <= query, and BOTH trees must     *)
+(* bind it.                                                                  *)
+(* Pinned (balloon.DigestVerify at the pinned commit 7fd0de2): the history    *)
+(* check was skipped when Exists is false or actual > query; MC_Balloon       *)
+(* shows that this variant accepts false claims.                              *)
 (***************************************************************************)
 DigestVerifyIntended(a, d, histRoot, hyperRoot) ==
   /\ a.exists
@@ -56,7 +58,7 @@ DigestVerifyIntended(a, d, histRoot, hyperRoot) ==
   /\ HVerify(a.hyper, a.key, d, a.actual, hyperRoot)
   /\ VerifyMembership(a.history, a.actual, a.query, d, histRoot)
 
-DigestVerifyAsImplemented(a, d, histRoot, hyperRoot) ==
+DigestVerifyPinned(a, d, histRoot, hyperRoot) ==
   LET hy == HVerify(a.hyper, a.key, d, a.actual, hyperRoot) IN
   IF a.exists /\ a.actual <= a.query
   THEN hy /\ VerifyMembership(a.history, a.actual, a.query, d, histRoot)
